@@ -813,7 +813,7 @@ def call_opaque(interp, fv, args, kwargs, node):
     """call of an opaque callable (callback): recorded in the ghost call log,
     returns an unconstrained opaque value; assumed not to touch modelled state"""
     log = interp.ghost.setdefault("calls", [])
-    log.append((fv, list(args), interp.ctx.cur_line))
+    log.append((fv, [ops.snapshot(a) for a in args], interp.ctx.cur_line))
     h = interp.reg.overrides.get(f"call:{fv.kind}")
     if h is not None:
         return h(interp, fv, args, kwargs, node)
@@ -1588,6 +1588,46 @@ def _idna(it, a, k, n):
     return VStr(strlib.ENC(a[0].z, z3.StringVal("idna:strict")), "str")
 
 
+def _ncalls(it, a, k, n):
+    """spec helper: number of calls of opaque callables (callbacks) made so far on this path"""
+    return VInt(len(it.ghost.get("calls", [])))
+
+
+def _notified_final(it, a, k, n):
+    """spec helper: the last callback call received `obj` in its FINAL state (every modelled field of the
+    snapshot taken at the call equals the field now): notification happens after the mutation"""
+    obj = a[0]
+    calls = it.ghost.get("calls", [])
+    if not calls:
+        return VBool(False)
+    snap = calls[-1][1][0] if calls[-1][1] else None
+    if not isinstance(snap, VObj) or not isinstance(obj, VObj) or snap.id != obj.id:
+        return VBool(False)
+    zs = []
+    for f, v in obj.fields.items():
+        if f.startswith("__") or f not in snap.fields:
+            continue
+        try:
+            zs.append(eq(snap.fields[f], v))
+        except Unsupported:
+            if isinstance(v, VDict):
+                continue
+            raise
+    return VBool(z3.And(zs + [T()]))
+
+
+def _ghost_shift_down(it, a, k, n):
+    """ghost: positions greater than idx move down by one (after deleting list element idx)"""
+    d, idx = a[0], as_int(it.need(a[1]))
+    x = z3.Const(it.ctx.fresh_name("gx"), d.keysort)
+    new = z3.Array(it.ctx.fresh_name("gshift"), d.keysort, IntS)
+    old = d.arrs[0]
+    it.ctx.assume(z3.ForAll([x], z3.Select(new, x) == z3.If(z3.Select(old, x) > idx, z3.Select(old, x) - 1, z3.Select(old, x))),
+                  "ghost:shift-down")
+    d.arrs = [new]
+    return NONE
+
+
 def _int_max_digits(it, a, k, n):
     from . import strlib
     return VInt(strlib.MAX_DIGITS)
@@ -1595,6 +1635,7 @@ def _int_max_digits(it, a, k, n):
 
 _BUILTINS = {
     "re_in": _re_in, "str_to_int": _str_to_int, "int_max_digits": _int_max_digits, "idna_ok": _idna_ok, "idna": _idna,
+    "ncalls": _ncalls, "notified_final": _notified_final, "ghost_shift_down": _ghost_shift_down,
     "len": _len, "min": _minmax(True), "max": _minmax(False), "isinstance": _isinstance,
     "hasattr": _hasattr, "getattr": _getattr, "int": _int, "str": _str, "bool": _bool, "float": _float,
     "bytes": _bytes, "bytearray": _bytearray, "list": _list, "tuple": _tuple, "dict": _dict, "set": _set,
